@@ -39,6 +39,7 @@ RULES = {
 
 
 def run(ck: Checker, prog: Program, tier: str):
+    ck.guard(_filter_design, ck, prog)
     ck.guard(_r1, ck, prog)
     ck.guard(_orientation_step, ck, prog)
     ck.guard(_r2, ck, prog)
@@ -217,6 +218,21 @@ def _r2(ck: Checker, prog: Program):
     else:
         ck.violation("C10.R2", fq, "window construction", "windows are not built from (ns_j, ew_j, vt_j) in that order with the record's orientation and meta",
                      loc=m.loc(loops[0]))
+
+
+def _filter_design(ck: Checker, prog: Program):
+    """Zero-phase Butterworth at the requested corners: designed against the record's own sampling rate 1/dt and applied
+    forwards and backwards to the whole series."""
+    from ..pathtable import PathTable
+    fs = prog.func("timeseries.TimeSeries.fs")
+    leaves = [l for l in PathTable(prog, fs.module, structured=True).leaves(fs.node.body) if l.exit == "return"]
+    DT = sp.Function("attr_dt_in_seconds")(sp.Symbol("self", real=True))
+    if len(leaves) == 1 and equal(leaves[0].value, 1 / DT):
+        ck.ok("C10.R1", fs.qualname, "fs = 1/dt_in_seconds (exact)")
+    else:
+        got = [str(l.value) for l in leaves]
+        ck.violation("C10.R1", fs.qualname, "sampling rate", f"the sampling rate used to design the filter is {got}, not 1/dt_in_seconds: the corners would be normalised against the wrong Nyquist frequency",
+                     loc=fs.loc())
 
 
 def _int_typed(expr: ast.AST, ints: Set[str]) -> bool:
